@@ -1,6 +1,6 @@
 """C14 tarpc honours the pluggable transport's contract — E-SHAPE sink typestate, idle flush, no spin."""
 import time
-from engine.facts import CannotDecide
+from engine.facts import callee_is, CannotDecide
 from engine.shape import Explorer, STAR, Budget
 from .shape_common import classify, SinkAut, find_cell_accessors, server_chains, chain_name, run_jobs
 
@@ -89,3 +89,26 @@ def run(ctx):
     n_del = sink_delegation(ctx, 'C14.delegate', ['server::BaseChannel', 'requests_per_channel::MaxRequests', 'channels_per_key::TrackedChannel'])
     if n_del < 9:
         raise CannotDecide('sink delegation sites: %d (floor 9)' % n_del)
+    # "return control to the executor and wait to be woken": neither endpoint wakes its own task.  A poll function that calls wake / wake_by_ref on the
+    # waker of the context it was polled with is re-polled at once, i.e. it retries the not-ready transport in a busy loop across polls
+    own = []
+    for f in F.fns.values():
+        if F.is_derived(f) or not (f.id.startswith('tarpc::client') or f.id.startswith('tarpc::server')):
+            continue
+        for bb, t in f.calls():
+            if callee_is(t, 'Waker::wake_by_ref', 'Waker::wake', 'task::Waker::wake_by_ref', 'task::Waker::wake') and not t.get('expn'):
+                rs = P.root(P.operand(f, t['args'][0], at=bb), through_params=True)
+                # the waker of a poll context (Context::waker of a parameter), as opposed to a waker stored for another task
+                if not (rs and all(P.is_call(r, 'Context::waker') or (r[0] == 'param' and 'Context' in F.fns[r[1]].local_ty(r[2])) for r, _ in rs)):
+                    continue
+                # ... on the edge where the transport just reported that it is not ready (a self-wake after real progress, to yield, is not judged here)
+                from .common import guarded_by_variant, guarded_by_bool
+                is_ready_poll = lambda x: any(P.is_call(r, 'Sink::poll_ready') or (P.unbound(r)[0] == 'call' and F.callee_fn(P.call_term(P.unbound(r))) is not None
+                                              and any(callee_is(t2, 'Sink::poll_ready') for _, t2 in F.callee_fn(P.call_term(P.unbound(r))).calls()))
+                                              for r, _ in P.root(x, inline=False))
+                pend_bool = lambda x: any(P.is_call(r, 'Poll::is_pending') and is_ready_poll(P.args_of(r)[0]) for r, _ in P.root(x, inline=False))
+                rdy_bool = lambda x: any(P.is_call(r, 'Poll::is_ready') and is_ready_poll(P.args_of(r)[0]) for r, _ in P.root(x, inline=False))
+                if guarded_by_variant(F, P, f, bb, is_ready_poll, ['Pending']) or guarded_by_bool(F, P, f, bb, pend_bool, True) or guarded_by_bool(F, P, f, bb, rdy_bool, False):
+                    own.append(f.loc(t))
+    R.ob('C14.selfwake', ('client and server poll functions', 'never wake their own task after a not-ready transport'), not own,
+         'on the edge where poll_ready returned Pending no poll function wakes the waker of the context it was polled with: they wait for the transport\'s wake-up instead of being re-polled at once', own)
